@@ -1,6 +1,6 @@
 #!/bin/bash
 # matrix.sh <out.tsv> [seed dirs...] : run every quick check against every seeded change, each applied to a scratch copy of /repo
-# (RP_REPO), so that /repo itself is not touched.  One line per (seed, property): rc and the VIOLATION line.
+# (RP_REPO), so that /repo itself is not touched.  PROPS="C03 C11" restricts the columns.  One line per (seed, property): rc and the VIOLATION line.
 out="$1"; shift
 cd "$(dirname "$0")/.."; VROOT=$(pwd)
 scratch=/tmp/rp-matrix-$$
@@ -9,7 +9,7 @@ for d in "$@"; do
   git -C /repo archive HEAD | tar -x -C $scratch
   cp /repo/Cargo.lock $scratch/ 2>/dev/null
   ( cd $scratch && git init -q . && git apply "$d/patch.diff" ) || { echo -e "$d\tPATCH-FAILS" >> $out; continue; }
-  for p in C01 C02 C03 C04 C05 C06 C07 C08 C09 C10 C11 C12 C13 C14 C15 C16 C17 C18 C19; do
+  for p in ${PROPS:-C01 C02 C03 C04 C05 C06 C07 C08 C09 C10 C11 C12 C13 C14 C15 C16 C17 C18 C19}; do
     o=$(RP_REPO=$scratch ./check $p quick 2>&1); rc=$?
     echo -e "$(basename $(dirname $d))/$(basename $d)\t$p\t$rc\t$(echo "$o" | grep -E 'VIOLATION|INTERNAL' | head -1 | sed 's/replay=[^ ]*//')" >> $out
   done
